@@ -456,6 +456,13 @@ pub struct MDL {
 }
 
 impl MDL {
+    /// The NUL-terminated string at `offset` of the string table, `None` if it is not inside the table.
+    fn string_at(strings: &[u8], offset: u32) -> Option<String> {
+        let tail = strings.get(offset as usize..)?;
+        let end = tail.iter().position(|c| *c == 0)?;
+        Some(tail[..end].iter().map(|c| *c as char).collect())
+    }
+
     pub fn from_existing(buffer: ByteSpan) -> Option<MDL> {
         let mut cursor = Cursor::new(buffer);
         let model_file_header = ModelFileHeader::read(&mut cursor).ok()?;
@@ -469,33 +476,13 @@ impl MDL {
         let mut affected_bone_names = vec![];
 
         for offset in &model.bone_name_offsets {
-            let mut offset = *offset;
-            let mut string = String::new();
-
-            let mut next_char = model.header.strings[offset as usize] as char;
-            while next_char != '\0' {
-                string.push(next_char);
-                offset += 1;
-                next_char = model.header.strings[offset as usize] as char;
-            }
-
-            affected_bone_names.push(string);
+            affected_bone_names.push(MDL::string_at(&model.header.strings, *offset)?);
         }
 
         let mut material_names = vec![];
 
         for offset in &model.material_name_offsets {
-            let mut offset = *offset;
-            let mut string = String::new();
-
-            let mut next_char = model.header.strings[offset as usize] as char;
-            while next_char != '\0' {
-                string.push(next_char);
-                offset += 1;
-                next_char = model.header.strings[offset as usize] as char;
-            }
-
-            material_names.push(string);
+            material_names.push(MDL::string_at(&model.header.strings, *offset)?);
         }
 
         let mut lods = vec![];
@@ -503,12 +490,15 @@ impl MDL {
         for i in 0..model.header.lod_count {
             let mut parts = vec![];
 
-            for j in model.lods[i as usize].mesh_index
-                ..model.lods[i as usize].mesh_index + model.lods[i as usize].mesh_count
-            {
-                let declaration = &model.header.vertex_declarations[j as usize];
-                let vertex_count = model.meshes[j as usize].vertex_count;
-                let material_index = model.meshes[j as usize].material_index;
+            // every table index and address below comes from the file: look it up checked, add it up in 64 bits
+            let lod = model.lods.get(i as usize)?;
+            let index_data_offset = *model_file_header.index_offsets.get(i as usize)?;
+
+            for j in lod.mesh_index..lod.mesh_index.checked_add(lod.mesh_count)? {
+                let declaration = model.header.vertex_declarations.get(j as usize)?;
+                let mesh = model.meshes.get(j as usize)?;
+                let vertex_count = mesh.vertex_count;
+                let material_index = mesh.material_index;
 
                 let mut vertices: Vec<Vertex> = vec![Vertex::default(); vertex_count as usize];
 
@@ -516,14 +506,13 @@ impl MDL {
                     for element in &declaration.elements {
                         cursor
                             .seek(SeekFrom::Start(
-                                (model.lods[i as usize].vertex_data_offset
-                                    + model.meshes[j as usize].vertex_buffer_offsets
-                                        [element.stream as usize]
-                                    + element.offset as u32
-                                    + model.meshes[j as usize].vertex_buffer_strides
-                                        [element.stream as usize]
-                                        as u32
-                                        * k as u32) as u64,
+                                lod.vertex_data_offset as u64
+                                    + *mesh.vertex_buffer_offsets.get(element.stream as usize)?
+                                        as u64
+                                    + element.offset as u64
+                                    + *mesh.vertex_buffer_strides.get(element.stream as usize)?
+                                        as u64
+                                        * k as u64,
                             ))
                             .ok()?;
 
@@ -662,30 +651,26 @@ impl MDL {
 
                 cursor
                     .seek(SeekFrom::Start(
-                        (model_file_header.index_offsets[i as usize]
-                            + (model.meshes[j as usize].start_index * size_of::<u16>() as u32))
-                            as u64,
+                        index_data_offset as u64
+                            + mesh.start_index as u64 * size_of::<u16>() as u64,
                     ))
                     .ok()?;
 
                 // TODO: optimize!
                 // not pre-sized: the count is a 32-bit value from the file
                 let mut indices: Vec<u16> = Vec::new();
-                for _ in 0..model.meshes[j as usize].index_count {
+                for _ in 0..mesh.index_count {
                     indices.push(cursor.read_le::<u16>().ok()?);
                 }
 
-                let mut submeshes: Vec<SubMesh> =
-                    Vec::with_capacity(model.meshes[j as usize].submesh_count as usize);
-                for i in 0..model.meshes[j as usize].submesh_count {
+                let mut submeshes: Vec<SubMesh> = Vec::with_capacity(mesh.submesh_count as usize);
+                for i in 0..mesh.submesh_count {
+                    let submesh_index = mesh.submesh_index as usize + i as usize;
+                    let submesh = model.submeshes.get(submesh_index)?;
                     submeshes.push(SubMesh {
-                        submesh_index: model.meshes[j as usize].submesh_index as usize + i as usize,
-                        index_count: model.submeshes
-                            [model.meshes[j as usize].submesh_index as usize + i as usize]
-                            .index_count,
-                        index_offset: model.submeshes
-                            [model.meshes[j as usize].submesh_index as usize + i as usize]
-                            .index_offset,
+                        submesh_index,
+                        index_count: submesh.index_count,
+                        index_offset: submesh.index_offset,
                     });
                 }
 
@@ -699,7 +684,7 @@ impl MDL {
                         .skip(shape.shape_mesh_start_index[i as usize] as usize)
                         .take(shape.shape_mesh_count[i as usize] as usize)
                         .filter(|shape_mesh| {
-                            shape_mesh.mesh_index_offset == model.meshes[j as usize].start_index
+                            shape_mesh.mesh_index_offset == mesh.start_index
                         })
                         .collect();
 
@@ -713,12 +698,9 @@ impl MDL {
                                 .take(shape_mesh.shape_value_count as usize)
                         })
                         .filter(|shape_value| {
-                            shape_value.base_indices_index
-                                >= model.meshes[j as usize].start_index as u16
+                            shape_value.base_indices_index >= mesh.start_index as u16
                                 && shape_value.base_indices_index
-                                    < (model.meshes[j as usize].start_index
-                                        + model.meshes[j as usize].index_count)
-                                        as u16
+                                    < mesh.start_index.wrapping_add(mesh.index_count) as u16
                         })
                         .collect();
 
@@ -728,7 +710,7 @@ impl MDL {
                         for shape_value in shape_values {
                             // base_indices_index counts from the start of the LOD's index buffer, our indices from the mesh's
                             let base_index = shape_value.base_indices_index as usize
-                                - model.meshes[j as usize].start_index as u16 as usize;
+                                - mesh.start_index as u16 as usize;
                             // Shape values can go stale (e.g. the mesh was given fewer vertices since), skip those
                             let Some(&vertex_index) = indices.get(base_index) else {
                                 continue;
@@ -746,18 +728,8 @@ impl MDL {
                             vertex.position[2] = new_vertex.position[2] - old_vertex.position[2];
                         }
 
-                        let mut offset = shape.string_offset;
-                        let mut string = String::new();
-
-                        let mut next_char = model.header.strings[offset as usize] as char;
-                        while next_char != '\0' {
-                            string.push(next_char);
-                            offset += 1;
-                            next_char = model.header.strings[offset as usize] as char;
-                        }
-
                         shapes.push(Shape {
-                            name: string,
+                            name: MDL::string_at(&model.header.strings, shape.string_offset)?,
                             morphed_vertices,
                         });
                     }
@@ -765,20 +737,18 @@ impl MDL {
 
                 let mut vertex_streams = vec![];
                 let mut vertex_stream_strides = vec![];
-                let mesh = &model.meshes[j as usize];
                 for stream in 0..mesh.vertex_stream_count {
                     let mut vertex_data = vec![];
-                    let stride = mesh.vertex_buffer_strides[stream as usize];
+                    let stride = *mesh.vertex_buffer_strides.get(stream as usize)?;
+                    let stream_offset = *mesh.vertex_buffer_offsets.get(stream as usize)?;
                     for z in 0..mesh.vertex_count {
                         // TODO: read the entire vertex data into a buffer
                         // Handle the offsets within Novus itself
                         cursor
                             .seek(SeekFrom::Start(
-                                (model.lods[i as usize].vertex_data_offset
-                                    + model.meshes[j as usize].vertex_buffer_offsets
-                                        [stream as usize]
-                                    + (z as u32 * stride as u32))
-                                    as u64,
+                                lod.vertex_data_offset as u64
+                                    + stream_offset as u64
+                                    + z as u64 * stride as u64,
                             ))
                             .ok()?;
 
@@ -788,8 +758,7 @@ impl MDL {
                     }
 
                     vertex_streams.push(vertex_data);
-                    vertex_stream_strides
-                        .push(mesh.vertex_buffer_strides[stream as usize] as usize);
+                    vertex_stream_strides.push(stride as usize);
                 }
 
                 parts.push(Part {
